@@ -549,6 +549,6 @@ func TestC07(t *testing.T) {
 			"evaluations counts bodies, sub_evaluations counts failing transactions executed; a body is non-trivial when it produced at least one failing transaction. Kind x position enumeration per body is exhaustive; bodies are sampled.",
 		Assumptions: []string{"a fresh MutateContext per top-level transaction", "storage errors are provoked with inputs bbolt refuses (empty bucket name, key > 32768 bytes); there is no fault-injection hook below bbolt"},
 		Gen:         genC07, Run: runC07,
-		QuickChecks: 40, ThoroughFactor: 15,
+		QuickChecks: 40, ThoroughFactor: 6,
 	})
 }
